@@ -339,20 +339,7 @@ pub fn class_ladder(ctx: &mut Ctx, prop: &str, oracles: u32, clauses: u32, reope
             return;
         }
     }
-    for i in (0..15).step_by(step) {
-        let a = Alpha { label: "class ladder (keys)", colliding: vec![class_key_len(i), class_key_len(i) + 1], other: vec![], vals: vec![3, 40] };
-        let mut cfg = make_cfg(prop, KtId::Bytes, 8, &a, seed);
-        cfg.oracles = oracles;
-        cfg.clauses = clauses;
-        if reopen {
-            cfg.params = reopen_params(cfg.params[0]);
-        }
-        let starts: Vec<Start> = empty_start(ctx, &cfg).into_iter().collect();
-        run_closure(ctx, &format!("class ladder: colliding keys of {} and {} bytes (key slots {} and {}) x {{3,40}}", a.colliding[0], a.colliding[1], crate::decoder::CLASSES[i], crate::decoder::CLASSES[i + 1]), &cfg, starts, 100_000, 20.0);
-        if ctx.run.too_many() || !ctx.run.violations.is_empty() {
-            return;
-        }
-    }
+    class_ladder_keys(ctx, prop, oracles, clauses, reopen, step);
 }
 
 /// closure over explicit keys (a one-bucket table, so that all of them share a chain)
@@ -371,14 +358,14 @@ pub fn explicit_keys_closure(ctx: &mut Ctx, prop: &str, kt: KtId, keys: Vec<Vec<
 
 /// string keys that are not valid UTF-8, in one chain; values that make the key record move
 pub fn non_utf8_closure(ctx: &mut Ctx, prop: &str, oracles: u32, clauses: u32) {
-    explicit_keys_closure(ctx, prop, KtId::Str, vec![vec![0xFF, 0xFE, b'k'], vec![b'a', 0xC3]], vec![5, 40, 1000], oracles, clauses, "2 string keys that are not valid UTF-8 x {5,40,1000} [string, 1 bucket]", 100_000, 20.0);
+    explicit_keys_closure(ctx, prop, KtId::Str, vec![vec![0xFF, 0xFE, b'k'], vec![b'a', 0xC3]], vec![5, 1000], oracles, clauses, "2 string keys that are not valid UTF-8 x {5,1000} [string, 1 bucket]", 100_000, 20.0);
 }
 
 /// integer keys at the ends of the domain (9-byte vu64 encodings, negative i64), in one chain
 pub fn int_boundary_closures(ctx: &mut Ctx, prop: &str, oracles: u32, clauses: u32) {
     for (kt, xs) in [(KtId::Vu64, [u64::MAX, 1u64 << 56, 127]), (KtId::U64, [u64::MAX, 0, 1u64 << 56]), (KtId::I64, [u64::MAX, 1u64 << 63, 0])] {
         let keys: Vec<Vec<u8>> = xs.iter().map(|x| crate::alphabet::int_key(kt, *x)).collect();
-        explicit_keys_closure(ctx, prop, kt, keys, vec![5, 40], oracles, clauses, &format!("3 integer keys at the ends of the domain {:?} x {{5,40}} [{}, 1 bucket]", xs, kt.name()), 100_000, 20.0);
+        explicit_keys_closure(ctx, prop, kt, keys, vec![5], oracles, clauses, &format!("3 integer keys at the ends of the domain {:?} x {{5}} [{}, 1 bucket]", xs, kt.name()), 100_000, 20.0);
         if !ctx.run.violations.is_empty() {
             return;
         }
@@ -429,15 +416,20 @@ pub fn many_sizes_closure(ctx: &mut Ctx, prop: &str, oracles: u32, clauses: u32,
 }
 
 /// the key half of the class ladder alone
-pub fn class_ladder_keys(ctx: &mut Ctx, prop: &str, oracles: u32, clauses: u32, step: usize) {
+pub fn class_ladder_keys(ctx: &mut Ctx, prop: &str, oracles: u32, clauses: u32, reopen: bool, step: usize) {
     let seed = ctx.seed;
     for i in (0..15).step_by(step) {
-        let a = Alpha { label: "class ladder (keys)", colliding: vec![class_key_len(i), class_key_len(i) + 1], other: vec![], vals: vec![3, 40] };
+        // the largest key length that fits class i, one byte more (class i+1), and a short third key: a
+        // freed slot of class i with a live record behind it, then a request for class i+1
+        let a = Alpha { label: "class ladder (keys)", colliding: vec![class_key_len(i), class_key_len(i) + 1, 6], other: vec![], vals: vec![3] };
         let mut cfg = make_cfg(prop, KtId::Bytes, 8, &a, seed);
         cfg.oracles = oracles;
         cfg.clauses = clauses;
+        if reopen {
+            cfg.params = reopen_params(cfg.params[0]);
+        }
         let starts: Vec<Start> = empty_start(ctx, &cfg).into_iter().collect();
-        run_closure(ctx, &format!("class ladder: colliding keys of {} and {} bytes (key slots {} and {}) x {{3,40}}", a.colliding[0], a.colliding[1], crate::decoder::CLASSES[i], crate::decoder::CLASSES[i + 1]), &cfg, starts, 100_000, 20.0);
+        run_closure(ctx, &format!("class ladder: colliding keys of {}, {} and 6 bytes (key slots {} and {}) x {{3}}", a.colliding[0], a.colliding[1], crate::decoder::CLASSES[i], crate::decoder::CLASSES[i + 1]), &cfg, starts, 100_000, 20.0);
         if ctx.run.too_many() || !ctx.run.violations.is_empty() {
             return;
         }
@@ -532,6 +524,7 @@ pub fn c02(tier: &str, seed: u64) -> i32 {
         let specs = vec![
             crate::props_c08::SeedSpec { file: "val", boundary: 16 * 1024, eps: 16, free_slots: 0, val_pad: 0 },
             crate::props_c08::SeedSpec { file: "key", boundary: 16 * 1024, eps: 16, free_slots: 2, val_pad: 0 },
+            crate::props_c08::SeedSpec { file: "key", boundary: 128 * 1024, eps: 0, free_slots: 2, val_pad: 1200 },
         ];
         crate::props_c08::seeded_group(&mut ctx, "C02", O_API | O_REOPEN, 0, 2, vec![3, 200], &specs, 60_000, 10.0);
     }
@@ -589,6 +582,10 @@ pub fn c05(tier: &str, seed: u64) -> i32 {
         run_closure(&mut ctx, "2 string keys that are not valid UTF-8 x {5,40,1000} [string, 1 bucket]", &cfg, starts, 100_000, 20.0);
     }
     crate::props_c08::seeded_runs(&mut ctx, "C05", O_DEC | O_DEC_CONTENTS, clauses, true);
+    if ctx.run.violations.is_empty() {
+        let t = ctx.thorough();
+        crate::engine_c::sync_point_pass(&mut ctx, "C05", if t { 5 } else { 4 }, if t { 200.0 } else { 15.0 });
+    }
     let rule = format!("{RULE_A}; invariant evaluated on every state by the independent decoder: acyclic chains, keys hash to their bucket, no duplicate key, stored count = reachable keys, bitmap covers non-empty buckets, value references in bounds and unshared, records within their slots, decoded contents = model; non-trivial = states with a chain of >= 2 keys or a non-empty free list");
     ctx.finish_model_checking(&rule, &["states_with_chain_len_ge2", "states_with_nonempty_free_list"])
 }
@@ -848,6 +845,16 @@ pub fn c15(tier: &str, seed: u64) -> i32 {
         // a key file whose next record straddles the 128 KiB buffer-chunk boundary
         let specs = vec![crate::props_c08::SeedSpec { file: "key", boundary: 128 * 1024, eps: 8, free_slots: 0, val_pad: 0 }];
         crate::props_c08::seeded_group_ro(&mut ctx, "C15", O_RO, 1, 2, vec![3, 200], &specs, 20_000, 10.0);
+    }
+    {
+        // values beyond 128 KiB (three-byte size field, more than one buffer chunk)
+        let a = Alpha { label: "2 colliding keys x {5,140000}", colliding: vec![5, 5], other: vec![], vals: vec![5, 140_000] };
+        let mut cfg = make_cfg("C15", KtId::Bytes, 8, &a, seed);
+        cfg.oracles = O_RO;
+        cfg.params = reopen_params(cfg.params[0]);
+        cfg.ro_mode = 1;
+        let starts: Vec<Start> = empty_start(&mut ctx, &cfg).into_iter().collect();
+        run_closure(&mut ctx, &format!("{} [bytes]", a.label), &cfg, starts, if thorough { 20_000 } else { 400 }, if thorough { 120.0 } else { 8.0 });
     }
     {
         // a table larger than one buffer chunk of bitmap (more than 131072 buckets)
